@@ -14,10 +14,18 @@ def run(ctx):
     ctx.model(MOD, "c12_dawg/DawgBuild_mcT.cfg", extra=(["-coverage", "1"] if big else []))
     gen = os.path.join(ctx.work, "gen.out")
     g = ctx.tlc(MOD, "c12_dawg/DawgBuild_genT.cfg" if big else "c12_dawg/DawgBuild_gen3.cfg", workers=1, outfile=gen, heap="8g")
+    # the Builder life cycle (Add after Finish, second Finish, Initialise): DawgLife.tla, its dump appended to the same generator file ("L" lines)
+    ctx.model("c12_dawg/DawgLifeMC", "c12_dawg/DawgLife_mc.cfg")
+    gen2 = os.path.join(ctx.work, "gen2.out")
+    g2 = ctx.tlc("c12_dawg/DawgLifeMC", "c12_dawg/DawgLife_gen.cfg", workers=1, outfile=gen2)
+    with open(gen, "a") as f:
+        f.write(open(gen2).read())
     out = ctx.sub("drive")
     meta = ctx.drive(out, gen=gen, shards=16)
     if meta.get("A_transitions_replayed", 0) != g["generated"] - 1:
         raise vlib.Infra("replayed %s transitions, TLC generated %s" % (meta.get("A_transitions_replayed"), g["generated"] - 1))
+    if meta.get("A_life_transitions_replayed", 0) != g2["generated"] - 1:
+        raise vlib.Infra("replayed %s life-cycle transitions, TLC generated %s" % (meta.get("A_life_transitions_replayed"), g2["generated"] - 1))
     ctx.candidates += json.load(open(os.path.join(out, "replayA.json")))
     traces = vlib.glob_traces(out)
     bad, st = ctx.accept(ACC, ACC_CFG, traces, heap="4g")
@@ -28,7 +36,9 @@ def run(ctx):
         evaluations=meta["A_steps"] + st.get("adds", 0) + st.get("lookups", 0),
         distinct_nontrivial=st.get("nontrivial", 0) + g["generated"] - 1,
         traces_validated_against_impl=meta["A_transitions_replayed"] + st.get("segs", 0),
-        rule="A: every transition of DawgBuild.tla (every strictly increasing list over %s followed by any further Add, accepted or rejected) "
+        rule="A2: every transition of DawgLife.tla (Builder life cycle: Add after Finish and a second Finish are rejected, Initialise gives a fresh "
+             "builder, a returned Dawg never changes) replayed after a shortest history, plus every script of <= 4 calls and random long scripts judged by DawgTrace.tla. "
+             "A: every transition of DawgBuild.tla (every strictly increasing list over %s followed by any further Add, accepted or rejected) "
              "replayed on a real Builder: Add errors, NumberOfWords, node count against the minimal automaton, Lookup of every string one longer "
              "than the longest word. B: word sets with rejected adds (random over {a,b}^<=4, {a,b,c}^<=3, bytes {0,1,127,128,200,255}), boundary "
              "sets (empty list, empty word as nil and as []byte{}), long shared prefixes/suffixes, nodes with up to 256 children, CROSSWD samples "
@@ -37,7 +47,7 @@ def run(ctx):
              % ("{a,b}^<=3" if big else "{a,b,c}^<=2", 4000 if big else 1500),
         samples=['dawg[ab4]("a","ab","ab","b","ba")', 'dawg[emptyword]("")', "dawg[fan200](...)"],
         exhaustive=True, acceptor_stats=st, driver_meta=meta)
-    ctx.assumptions += ["on a non-member the integer returned by Lookup is unspecified", "Finish twice is outside the statement"]
+    ctx.assumptions += ["on a non-member the integer returned by Lookup is unspecified", "a Dawg returned by Finish is observed again only within the same process (no aliasing across goroutines)"]
     return vlib.finish(ctx, vlib.standard_confirm(ctx, ACC, ACC_CFG, pid=PID))
 
 
